@@ -308,7 +308,7 @@ fn gen_obj(r: &mut Rng, depth: u32) -> String {
 }
 
 /// The "standard root": an object with fields of known types, so typed programs are mostly valid.
-fn gen_root(r: &mut Rng) -> String {
+pub fn gen_root(r: &mut Rng) -> String {
     let nums = |r: &mut Rng| {
         let n = r.below(6);
         let xs: Vec<String> = (0..n).map(|_| gen_num(r)).collect();
@@ -352,7 +352,7 @@ fn gen_root(r: &mut Rng) -> String {
 // ---------------------------------------------------------------- program generator
 
 #[derive(Clone, Copy, PartialEq, Debug)]
-enum Ty {
+pub enum Ty {
     Any,
     Root,
     Num,
@@ -1050,7 +1050,7 @@ pub fn gen_program(r: &mut Rng, depth: u32, root: Ty, wild: bool) -> String {
 /// User-defined functions are expanded by substitution in succinctly, which re-reads the input
 /// number from its printed form (a double ≥ 2^53 that prints as an integer continues as an exact
 /// integer – recorded C24 finding); programs with `def` therefore get inputs without such numbers.
-fn tame_big_numbers(input: &str) -> String {
+pub fn tame_big_numbers(input: &str) -> String {
     let mut s = input.to_string();
     for big in ["9223372036854775808", "-9223372036854775809", "18446744073709551616", "123456789012345678901234567890", "1e17", "1e19", "1e308", "-1e308", "1.7976931348623157e308", "9007199254740993", "9223372036854775807", "-9223372036854775808", "9007199254740992"] {
         s = s.replace(big, "7");
